@@ -181,7 +181,7 @@ def build_s2p(rot_q, motion, sub, r, mu, aniso, brcp, seed=0, e_N=None, e_F=None
                 A0=A0, aniso=np.asarray(aniso, float), r=r, mu=mu, q0=q0)
 
 
-def build_s2s(pair, radii, mu, sep, seed=0, e_N=None, e_F=None, pad=True):
+def build_s2s(pair, radii, mu, sep, seed=0, e_N=None, e_F=None, pad=True, order="12", shift=None):
     """Sphere2Sphere on an assembled system.  pair = (kind1, kind2) with kinds RB | PM | FRfix | FRmov
     (FRmov = translating and rotating frame).  sep = initial centre separation vector (defines the
     reference contact basis)."""
@@ -190,7 +190,7 @@ def build_s2s(pair, radii, mu, sep, seed=0, e_N=None, e_F=None, pad=True):
     from cardillo.contacts import Sphere2Sphere
 
     sep = np.asarray(sep, float)
-    c1 = np.array([0.2, -0.1, 0.3])
+    c1 = np.array([0.2, -0.1, 0.3]) + (np.zeros(3) if shift is None else np.asarray(shift, float))
     c2 = c1 + sep
     subs = []
     parts = []
@@ -224,7 +224,12 @@ def build_s2s(pair, radii, mu, sep, seed=0, e_N=None, e_F=None, pad=True):
     if e_F is not None:
         kw["e_F"] = e_F
     contact = Sphere2Sphere(subs[0], subs[1], radii[0], radii[1], mu, **kw)
-    system.add(subs[0], subs[1], contact)
+    if order == "21":
+        # the second partner is registered BEFORE the first one: the contact's local layout [subsystem1, subsystem2]
+        # is then not the order of the global coordinates
+        system.add(subs[1], subs[0], contact)
+    else:
+        system.add(subs[0], subs[1], contact)
     _assemble(system)
     return dict(system=system, contact=contact, subs=subs, parts=parts, radii=tuple(radii), mu=mu, q0s=q0s,
                 c1=c1, c2=c2)
